@@ -31,6 +31,13 @@ def range_queries(m):
                 raise ContractViolation(F, "C06 a query that contains a time later than the current time is refused", (plural.__name__, times, t))
             if got != [single(q) for q in times]:
                 raise ContractViolation(F, "C06 one value per requested time, each the value recorded for that time", (plural.__name__, times, got))
+    # C08: VWAP at any recorded time = turnover up to that time / executed volume up to that time (NaN before the first fill)
+    import math
+    for q in range(t + 1):
+        vol = sum(m.get_executed_volume(k) for k in range(q + 1)); tot = sum(m.get_executed_total_price(k) for k in range(q + 1))
+        got = m.get_vwap(q)
+        if (vol == 0) != (isinstance(got, float) and math.isnan(got)) or (vol != 0 and not math.isclose(got, tot / vol, rel_tol=1e-12)):
+            raise ContractViolation("Market.get_vwap", "C08 VWAP = turnover up to the time / executed volume up to the time (NaN when nothing was executed)", dict(time=q, clock=t, got=got, volume=vol, turnover=tot))
 
 
 def search(seed, tier, obligation, hints):
